@@ -3,6 +3,7 @@ permutation differential (notes must not depend on merge order)."""
 from vmon import gen
 from vmon.checks.common import obs, fail, both_views, random_prefix, apply_prefix
 
+EXTREMES = "seqs"   # worker re-labels every sixth case to the ends of the legal ranges (gen.extremify)
 PROP = "C15"
 MONITORS = ["merge"]
 INSITU = {"k": "merge or load or composition or tokenisation"}
